@@ -475,6 +475,49 @@ func sweepC04(stats map[string]int) []string {
 	return lines
 }
 
+// exhaustC04: bounded-exhaustive histories over the self-referencing store n of the cyc wiring: ids {a, b},
+// operations create / full update with next in {nil, a, b} and delete (14 operations), one per transaction,
+// every sequence of length 1..maxLen. Covers self references, two-cycles, re-parenting and chains.
+func exhaustC04(maxLen int, stats map[string]int) []string {
+	w := wiringByName("cyc")
+	w.derive()
+	var ops []hOp
+	for _, id := range []string{"a", "b"} {
+		for _, next := range []*string{nil, sp("a"), sp("b")} {
+			f := map[string]*string{"name": sp("x")}
+			if next != nil {
+				f["next"] = next
+			}
+			ops = append(ops, hOp{Kind: "C", Store: "n", Id: id, F: f, S: map[string][]string{}})
+			ops = append(ops, hOp{Kind: "UP", Store: "n", Id: id, F: f, S: map[string][]string{}})
+		}
+		ops = append(ops, hOp{Kind: "D", Store: "n", Id: id})
+	}
+	var lines []string
+	var rec func(prefix []hTx, depth int)
+	rec = func(prefix []hTx, depth int) {
+		if len(prefix) > 0 {
+			var c strings.Builder
+			c.WriteString(w.text())
+			for k := range prefix {
+				c.WriteString(" ")
+				c.WriteString(w.txText(&prefix[k]))
+			}
+			lines = append(lines, c.String())
+			stats["exhaustive"]++
+		}
+		if depth == maxLen {
+			return
+		}
+		for i := range ops {
+			next := append(append([]hTx{}, prefix...), hTx{Ops: []hOp{ops[i]}})
+			rec(next, depth+1)
+		}
+	}
+	rec(nil, 0)
+	return lines
+}
+
 // genC04 produces the seeded history stream of the C04 check: the four wirings in rotation; every
 // second round of four draws its ids from the hostile alphabet (so every wiring meets hostile ids).
 func genC04(seed int64, n int, stats map[string]int) []string {
@@ -556,6 +599,11 @@ func runStoreIso(o *opts) error {
 	if !(o.n == 0 && o.get("corpus", "") != "" && o.get("profile", "") == "") {
 		if o.get("sweep", "1") == "1" {
 			lines = append(lines, sweepC04(stats)...)
+			if o.thorough() {
+				lines = append(lines, exhaustC04(3, stats)...)
+			} else {
+				lines = append(lines, exhaustC04(2, stats)...)
+			}
 		}
 		lines = append(lines, genC04(o.seed, n, stats)...)
 	}
